@@ -38,6 +38,7 @@ func init() {
 			{ID: "C07.16", Desc: "the invalidation does not depend on the caller's context still being live", Run: func(c *Ctx) { ruleInvalidationIgnoresCallerContext(c, "C07.16") }, MinSites: 1},
 			{ID: "C07.17", Desc: "another port of the host is another origin (the written port precedes the default)", Run: func(c *Ctx) { ruleWrittenPortBeforeDefault(c, "C07.17") }, MinSites: 1},
 			{ID: "C07.18", Desc: "the key function does not read the userinfo of the URL (a target spelled with userinfo is the same target)", Run: func(c *Ctx) { ruleKeyIgnoresUserinfo(c, "C07.18") }, MinSites: 1},
+			{ID: "C07.19", Desc: "Location values are resolved against the request URL (receiver: request URL, argument: parsed field value)", Run: func(c *Ctx) { ruleLocationResolvedAgainstRequestURL(c, "C07.19") }, MinSites: 1},
 		},
 	})
 }
